@@ -22,6 +22,23 @@ struct M_ : state_machine_def<M_> {
   template<class F,class Ev> void no_transition(Ev const&,F&,int){ g_log += "NT "; }
 };
 typedef BE<M_> M;
+// second machine: a Kleene row defers (front::Defer) every other_ev while Busy; after `nxt` the deferred occurrences come back: the first
+// to an exact-type row, the second to a Kleene row - both must see the payload that was posted (C18 payload integrity through deferral)
+struct ActOther { template<class F,class S,class T> void operator()(other_ev const& e,F&,S&,T&){ g_log += "exact-other:" + std::to_string(e.v) + " "; } };
+struct IsOther { template<class E,class F,class S,class T> bool operator()(E const& e,F&,S&,T&){ return boost::any_cast<other_ev>(&e) != 0; } };
+struct D_ : state_machine_def<D_> {
+  typedef int activate_deferred_events;
+  struct Busy : state<> {}; struct Idle : state<> {};
+  struct Ready : state<> { template<class E,class F> void on_entry(E const&,F&){} template<class F> void on_entry(other_ev const& e,F&){ g_log += "entry-other:" + std::to_string(e.v) + " "; } };
+  typedef Busy initial_state;
+  struct transition_table : mpl::vector<
+    Row<Busy, boost::any, none, Defer, IsOther>,
+    Row<Busy, nxt, Idle>,
+    Row<Idle, other_ev, Ready, ActOther, none>,
+    Row<Ready, boost::any, none, ActAny, none> > {};
+  template<class F,class Ev> void no_transition(Ev const&,F&,int){ g_log += "NT "; }
+};
+typedef BE<D_> D;
 int main(int argc, char** argv) {
   if (argc > 1) g_only = argv[1];
   { M m; m.start(); g_log.clear(); m.process_event(derived_ev(11));
@@ -30,5 +47,8 @@ int main(int argc, char** argv) {
     report("base.base-row", g_log == "base:22 ", "C18,C13", "log=[" + g_log + "]"); }
   { M m; m.start(); g_log.clear(); m.process_event(other_ev(33));
     report("other.kleene-row-with-payload", g_log == "any:33 ", "C18,C13", "log=[" + g_log + "]"); }
+  { D m; m.start(); g_log.clear(); m.process_event(other_ev(7)); m.process_event(other_ev(42)); m.process_event(nxt());
+    // payload only: which of the two occurrences comes back first is C05's business (family `defer`, action-defer.order)
+    report("kleene-deferred.payload-intact", g_log == "exact-other:7 entry-other:7 any:42 " || g_log == "exact-other:42 entry-other:42 any:7 ", "C18", "log=[" + g_log + "]"); }
   return finish();
 }
